@@ -1096,6 +1096,49 @@ def _point_witness(gd, dst, gs, src, graph):
     return first, len(pairs)
 
 
+def p_polar(gd, gs, sd, ss):
+    """pair in which one raster contains a pole or spans the world (its lon/lat footprint is not a valid polygon):
+    never an error, and every pair witnessed by a point (one pixel inside a source tile, sent through pyproj directly,
+    landing one pixel inside a destination tile) is listed; misses of the open chord class keep their own key"""
+    dst, src = mk_gbt(gd, sd), mk_gbt(gs, ss)
+    try:
+        graph = dst.grid_intersect(src)
+    except Exception as e:
+        return False, f"raised {type(e).__name__}: {str(e)[:200]}"
+    miss, nw = _point_witness(gd, dst, gs, src, graph)
+    if miss is not None:
+        is_chord, msg = miss
+        return False, ("[chord] " if is_chord else "") + msg
+    return True, f"{nw} point-witnessed pairs, all listed"
+
+
+def gen_pair_polar(rng):
+    """polar-stereographic raster centred on (or near) a pole, or a whole-world Web-Mercator raster, against a valid
+    regional EPSG:4326 raster; returned as (polar/world raster, lon/lat raster, tiles, tiles)"""
+    kind = rng.choice(["3031", "3031", "3413", "3857"])
+    if kind == "3857":
+        N = rng.choice([128, 200])
+        px = 2 * 20037508.342789244 / N
+        gp = (N, N, "epsg:3857", px, 0.0, -20037508.342789244, 0.0, -px, 20037508.342789244)
+        lat0 = rng.uniform(-60, 40)
+        lon0 = rng.uniform(-170, 80)
+    else:
+        N = rng.choice([120, 200, 240])
+        px = float(rng.choice([10000, 25000]))
+        off = rng.choice([0, 0, 0.2]) * N * px
+        gp = (N, N, "epsg:" + kind, px, 0.0, -N * px / 2 + off, 0.0, -px, N * px / 2)
+        lat0 = rng.uniform(-88, -62) if kind == "3031" else rng.uniform(55, 80)
+        lon0 = rng.uniform(-170, 80)
+    r = rng.choice([0.25, 0.5, 1.0])
+    NYg, NXg = rng.randint(20, 60), rng.randint(40, 180)
+    lat1 = min(89.5, lat0 + NYg * r) if kind != "3031" else min(-55.0, lat0 + NYg * r)
+    NYg = max(4, int((lat1 - lat0) / r))
+    NXg = min(NXg, int((179.5 - lon0) / r))
+    gg = (NYg, NXg, "epsg:4326", r, 0.0, round(lon0, 2), 0.0, -r, round(lat0 + NYg * r, 2))
+    t = rng.choice([20, 25, 40])
+    return gp, gg, ("reg", t, t), ("reg", rng.randint(5, NYg), rng.randint(10, NXg))
+
+
 def p_crossref(gd, gs, sd, ss):
     """different-CRS pair (testing of the oracle composition): never an error; every source tile whose footprint
     overlaps a destination tile's footprint by more than a sliver (4 pixels of the finer grid) is listed.
@@ -1137,7 +1180,7 @@ def p_crossref(gd, gs, sd, ss):
 
 
 PREDICATES = {"locate": p_locate, "pixquery": p_pixquery, "geomquery": p_geomquery, "linear": p_linear,
-              "general": p_general, "crossref": p_crossref, "xquery": p_xquery, "many_crs": p_many_crs, "xbig": p_xbig}
+              "general": p_general, "crossref": p_crossref, "xquery": p_xquery, "many_crs": p_many_crs, "xbig": p_xbig, "polar": p_polar}
 
 
 def search(out, tier):
@@ -1153,7 +1196,7 @@ def search(out, tier):
             ok, detail = False, f"predicate raised {type(e).__name__}: {e}"
         out.count("predicate:" + name)
         out.case(("pred", name, enc(args)), True)
-        key = CHORD_KEY if (name == "crossref" and detail.startswith("[chord]")) else f"c12:{name}"
+        key = CHORD_KEY if (name in ("crossref", "polar") and detail.startswith("[chord]")) else f"c12:{name}"
         if not ok and key not in found:
             found[key] = True
             out.violation(key, f"{name}{enc(args)}: {detail}",
@@ -1223,6 +1266,11 @@ def search(out, tier):
     # UTM rasters and projected rectangles into lon/lat rasters), tiles small relative to the bulge
     for gi in range(12 if not big else 60):
         run("xbig", *gen_xbig(rng))
+    # rasters containing a pole / spanning the world (invalid lon/lat footprint) on either side
+    for gi in range(5 if not big else 30):
+        gp, gg, sp, sg = gen_pair_polar(rng)
+        run("polar", gp, gg, sp, sg)
+        run("polar", gg, gp, sg, sp)
     # geographic CRSs other than EPSG:4326 (GDA94, GDA2020, NAD83, ETRS89) as destination and as source
     for gi in range(8 if not big else 60):
         gg, gp, sg, sp = gen_pair_geog(rng)
